@@ -321,6 +321,101 @@ def c01_toplevel(ka: int, kb: int, kc: int, t0: int, d0: int, nsdepth: int) -> b
     return ok
 
 
+# ---------------------------------------------------------------- every type expression of a small algebra, in every type position
+A_NAMES = ["int", "Cls", "This", "unsigned char"]
+A_NS = [(), ("a",), ("a", "b"), ("T",)]
+A_QUAL = [(False, ""), (True, ""), (False, "*"), (False, "@"), (False, "&"), (True, "&"), (True, "*"), (True, "@")]
+R_NAMES2 = ["vector", "Box"]
+R_NS2 = [("std",), (), ("a", "b")]
+NA_LEAF = len(A_NAMES) * len(A_NS) * len(A_QUAL)          # 128
+NA_ROOT = len(R_NAMES2) * len(R_NS2) * len(A_QUAL)        # 48
+A_BREPS = [0, 9, 42, 75, 100, 127]
+TYPE_POSITIONS = [
+    ("argument", "void f(%s a, int z);", lambda m: m.content[0].args.list()[0].ctype),
+    ("defaulted argument", "void f(int z, %s a = dflt(1, 2));", lambda m: m.content[0].args.list()[1].ctype),
+    ("return type", "%s f(int z);", lambda m: m.content[0].return_type.type1),
+    ("pair member", "pair<%s, double> f();", lambda m: m.content[0].return_type.type1),
+    ("method argument", "class C { void g(double z, %s a) const; };", lambda m: m.content[0].methods[0].args.list()[1].ctype),
+    ("method return", "class C { %s g() const; };", lambda m: m.content[0].methods[0].return_type.type1),
+    ("static return", "class C { static %s g(); };", lambda m: m.content[0].static_methods[0].return_type.type1),
+    ("constructor argument", "class C { C(%s a); };", lambda m: m.content[0].ctors[0].args.list()[0].ctype),
+    ("property", "class C { %s p; };", lambda m: m.content[0].properties[0].ctype),
+    ("variable", "%s v;", lambda m: m.content[0].ctype),
+    ("template argument of an argument", "void f(std::map<int, %s> a);", lambda m: m.content[0].args.list()[0].ctype.template_params[1]),
+]
+NTP = len(TYPE_POSITIONS)
+
+
+def a_leaf(code):
+    n, r = divmod(code, len(A_NS) * len(A_QUAL))
+    ns, q = divmod(r, len(A_QUAL))
+    const, suf = A_QUAL[q]
+    return T(A_NAMES[n], ns=A_NS[ns], const=const, suf=suf)
+
+
+def a_root(code, args):
+    n, r = divmod(code, len(R_NS2) * len(A_QUAL))
+    ns, q = divmod(r, len(A_QUAL))
+    const, suf = A_QUAL[q]
+    return T(R_NAMES2[n], *args, ns=R_NS2[ns], const=const, suf=suf)
+
+
+def a_allowed(ty, position):
+    """inside the dialect: basic type names carry no namespace; a pair member is a plain (untemplated) type"""
+    const, nss, name, args, suf = ty
+    if name in ("int", "unsigned char") and nss:
+        return False
+    if position == "pair member" and args:
+        return False
+    return all(a_allowed(a, "") for a in args)
+
+
+def _check_type_everywhere(ty, npos=NTP, first=0):
+    """in `npos` of the type positions, starting at position `first` and stepping so that they spread over the list"""
+    from harness.project import p_type
+    want = x_type(ty)
+    step = max(1, NTP // npos)
+    for i in range(npos):
+        label, tpl, getter = TYPE_POSITIONS[(first + i * step) % NTP]
+        if not a_allowed(ty, label):
+            continue
+        text = tpl % itext(ty)
+        try:
+            got = p_type(getter(parser.Module.parseString(text)))
+        except Exception as ex:
+            got = "raised %s" % type(ex).__name__
+        if got != want:
+            return _fail(position=label, text=text, got=got, want=want)
+    return True
+
+
+def c01_all_types(kind: int, r: int, a: int, b: int) -> bool:
+    """
+    Every type expression of a small algebra — leaves {int, Cls, This, unsigned char} x namespaces {-, a::, a::b::, T::} x
+    8 const / * / @ / & combinations; templated roots {vector, Box} x 3 namespaces x the same 8 qualifier combinations with one
+    or two leaves as arguments — written in 11 type positions (argument, defaulted argument, return, pair member, method /
+    static / constructor, property, variable, nested template argument): the tree holds exactly that type.
+    pre: 0 <= kind <= 2 and 0 <= r < NA_ROOT and 0 <= a < NA_LEAF and 0 <= b < len(A_BREPS)
+    pre: kind == 0 or (kind == 1 and (THOROUGH or r % 4 == a % 4)) or (kind == 2 and r % (2 if THOROUGH else 8) == a % (2 if THOROUGH else 8))
+    post: _
+    """
+    kind, a = pick(kind, 0, 3), pick(a, 0, NA_LEAF)
+    if kind == 0:
+        with concrete():
+            ok = _check_type_everywhere(a_leaf(a))
+    else:
+        r = pick(r, 0, NA_ROOT)
+        if kind == 1:
+            with concrete():
+                ok = _check_type_everywhere(a_root(r, [a_leaf(a)]), NTP if THOROUGH else 3, a + r)
+        else:
+            b = pick(b, 0, len(A_BREPS)) if THOROUGH else (a + r) % len(A_BREPS)
+            with concrete():
+                ok = _check_type_everywhere(a_root(r, [a_leaf(a), a_leaf(A_BREPS[b])]), 4 if THOROUGH else 3, a + r + b)
+    reached({"kind": kind, "root": r, "a": a} if not ok else None)
+    return ok
+
+
 # ---------------------------------------------------------------- identifiers built from reserved spellings
 def _keywords():
     """alphabetic words the LIVE grammar matches as Keyword / Literal anywhere (read from the object graph)"""
@@ -416,6 +511,8 @@ def conds(tier):
                     NTY, ND, " x %d second types (return / template header / arity / depth derived)" % NTY if not q else " (other choices derived)")),
         xh.Cond(M, "c01_class", t(300, 3000), kind=sb, examples=["k1=6, k2=4, t0=3, d0=2, r=1, base=3, virt=1, tp=2, nsdepth=1", "k1=11, k2=13, t0=9, d0=5, r=7, base=4, virt=0, tp=4, nsdepth=2"],
                 bounds="%d x %d member-kind pairs%s" % (NMK, NMK, " x %d member types (defaults / bases derived)" % NTY if not q else " (types / defaults / bases derived)")),
+        xh.Cond(M, "c01_all_types", t(420, 1800), kind=sb, examples=["kind=0, r=0, a=43, b=0", "kind=1, r=11, a=35, b=0", "kind=2, r=47, a=127, b=3", "kind=1, r=3, a=3, b=0"],
+                bounds="every type expression of a small algebra (128 leaves in all 11 type positions; 48 templated roots with 1-2 leaf arguments: %s)" % ("one argument: all roots x leaves x 11 positions; two arguments: every second (root, leaf) pair x 6 second arguments x 4 positions" if not q else "each root with every fourth (one argument) / eighth (two arguments) leaf, second argument derived, 3 of the 11 positions each, rotating")),
         xh.Cond(M, "c01_keyword_identifiers", t(300, 900), kind=sb, examples=["pos=0, kw=3, form=0", "pos=7, kw=0, form=0", "pos=20, kw=5, form=0"],
                 bounds="%d identifier positions x %d reserved words of the live grammar x %d ways of extending them into an identifier" % (NPOS, NKW, NFORM)),
         xh.Cond(M, "c01_toplevel", t(300, 3000), kind=sb, examples=["ka=2, kb=9, kc=4, t0=7, d0=3, nsdepth=2", "ka=3, kb=10, kc=8, t0=1, d0=1, nsdepth=3"],
